@@ -17,7 +17,9 @@ CHECKS = {
               "float64, array of objects}; distinct = hash of the document text"),
         runs=[
             dict(engine="jsonrt", test="TestC07", quick=dict(checks=200000, shards=4, timeout=600),
-                 thorough=dict(checks=8000000, shards=16, timeout=3000)),
+                 thorough=dict(checks=8000000, shards=12, timeout=3000)),
+            dict(engine="shipsim", test="TestC07Envelope", quick=dict(checks=10000, shards=2, timeout=600),
+                 thorough=dict(checks=400000, shards=4, timeout=3000)),
         ],
         assumptions=["documents with duplicate member names are not generated (no defined JSON semantics)"],
     ),
@@ -77,5 +79,25 @@ CHECKS = {
             dict(engine="shipsim", test="TestC03Arbitrary", quick=dict(checks=20000, shards=4, timeout=600),
                  thorough=dict(checks=800000, shards=8, timeout=3000)),
         ],
+    ),
+    "C06": dict(
+        level="exploration",
+        rule=("rapid-generated scripts over two real endpoints: valid prefix of the handshake, then FIFO deliveries interleaved with valid SPINE "
+              "data frames injected towards either side at any position (before, during, after the receiver's remaining handshake) and "
+              "application writes after completion. Oracle: reader log of each side == arrival sequence of data frames (same payloads, "
+              "same order, each once), nothing before completion, buffered frames first. non-trivial = >= 2 data frames arrived at a side "
+              "before it completed and it completed; distinct = hash of the script"),
+        runs=[dict(engine="shipsim", test="TestC06", quick=dict(checks=30000, shards=4, timeout=600),
+                   thorough=dict(checks=1200000, shards=16, timeout=3000))],
+    ),
+    "C09": dict(
+        level="exploration",
+        rule=("rapid-generated (stored SHIP ID or none) x (presented id: equal, prefix/suffix/case variants, other, empty, missing, null, "
+              "ill-typed) for both roles; the man in the middle runs the real handshake up to the access-methods phase and then delivers, "
+              "drops or replaces requests and replies in any order, followed by further traffic. Oracle: mismatch/ill-typed => error, closed, "
+              "never set up; match => completes, known id not reported, new id reported exactly once before setup. non-trivial = a "
+              "variant id or a reply before the request; distinct = hash of the script"),
+        runs=[dict(engine="shipsim", test="TestC09", quick=dict(checks=30000, shards=4, timeout=600),
+                   thorough=dict(checks=1200000, shards=16, timeout=3000))],
     ),
 }
